@@ -24,7 +24,7 @@ class AstToSqliteSqlVisitor(AstToSqlVisitor):
 
     def visit_DateTime(self, node: ast.DateTime) -> str:
         """:meta private:"""
-        return f"DATETIME('{node.val}')"
+        return f"DATETIME('{node.val.upper()}')"
 
     def sqlfunc_indexof(self, *args: ast._Node) -> str:
         """:meta private:"""
